@@ -10,6 +10,7 @@ import (
 	"io"
 	"runtime"
 	"strconv"
+	"strings"
 	"sync"
 	"time"
 
@@ -162,6 +163,9 @@ func (m *Manager) CreateTable(name string) (Table, error) {
 }
 
 func (m *Manager) createTable(name string) (Table, error) {
+	if err := validateTableName(name); err != nil {
+		return Table{}, err
+	}
 	storeName := storedTableName(name)
 	exists, err := m.store.Exists(storeName)
 	if err != nil {
@@ -201,6 +205,17 @@ func (m *Manager) DeleteTable(name string) error {
 	}
 
 	return m.store.Delete(storeName, tab.Ver)
+}
+
+// validateTableName refuses names that would leave the catalogue's key space: the catalogue keys
+// are paths ("/tables/<name>", "/tables/<name>/lease", "/tables/sys/idseq") and are listed by a glob
+// that does not cross '/', so a name containing '/' is invisible to listing and reconciliation and
+// can collide with the lease or sequence key of another table.
+func validateTableName(name string) error {
+	if strings.Contains(name, "/") {
+		return serrors.ErrInvalidTableName
+	}
+	return nil
 }
 
 func storedTableName(name string) string {
@@ -518,6 +533,9 @@ func (m *Manager) stopTable(clusterID uint64) error {
 }
 
 func (m *Manager) Restore(name string, reader io.Reader) error {
+	if err := validateTableName(name); err != nil {
+		return err
+	}
 	tbl, version, err := m.getTableVersion(name)
 	if err != nil && !errors.Is(err, serrors.ErrTableNotFound) {
 		return err
